@@ -192,6 +192,7 @@ func checkC19(c *Ctx) {
 	}
 	c.ruleFullTraversal("C19-R4", 2)
 	c.ruleValueRemovalKeepsChildren("C19-R5")
+	c.ruleInteriorPointersFollowRoot("C19-R6")
 }
 
 // nilGuardedMap: the MapUpdate through field address fa is dominated by an If on "(node).Children == nil" whose true branch stores a fresh map into the same field.
@@ -792,6 +793,81 @@ func isWildcardTest(bo *ssa.BinOp) bool {
 		}
 	}
 	return false
+}
+
+// ruleInteriorPointersFollowRoot implements C19-R6: a store wrapper that replaces its tree (Load installs a root decoded
+// from a dump) also resets every other pointer into the tree that it keeps (a remembered node, a cursor): such a pointer
+// still designates a node of the discarded tree, and writes made through it are invisible to every later read.
+func (c *Ctx) ruleInteriorPointersFollowRoot(id string) {
+	ru := c.R.Rule(id, "when a trie wrapper replaces its tree by another one (a root that does not derive from the current tree: Load), every other field of the wrapper that points into the tree is assigned in the same function: a remembered node of the discarded tree would receive later writes that no read can see", "E11 shape rule on the wrapper's node-typed fields (positive control: root replacements counted)", 2)
+	n := 0
+	for _, pkg := range triePkgs {
+		isNodePtr := func(t types.Type) bool {
+			p, ok := t.Underlying().(*types.Pointer)
+			return ok && isNamed(p.Elem(), pkg, "Node")
+		}
+		for _, f := range c.P.ModFuncs() {
+			if f.Package() == nil || f.Package().Pkg.Path() != c.P.Rel(pkg) || c.P.IsGenerated(f) {
+				continue
+			}
+			for _, b := range f.Blocks {
+				for _, in := range b.Instrs {
+					st, ok := in.(*ssa.Store)
+					if !ok {
+						continue
+					}
+					fa, ok := st.Addr.(*ssa.FieldAddr)
+					if !ok || !isNodePtr(derefT(fa.Type())) {
+						continue
+					}
+					wt, ok := derefT(fa.X.Type()).Underlying().(*types.Struct)
+					if !ok || isNamed(derefT(fa.X.Type()), pkg, "Node") {
+						continue
+					}
+					// the wrapper is being constructed here: not a replacement
+					if _, fresh := core.Strip(fa.X).(*ssa.Alloc); fresh {
+						continue
+					}
+					// derives from the current tree (a node found by walking it): not a replacement
+					fromTree := depReaches(st.Val, func(v ssa.Value) bool {
+						ld, ok := v.(*ssa.UnOp)
+						if !ok || ld.Op != token.MUL {
+							return false
+						}
+						ofa, ok := ld.X.(*ssa.FieldAddr)
+						return ok && isNodePtr(derefT(ofa.Type())) && types.Identical(derefT(ofa.X.Type()), derefT(fa.X.Type()))
+					})
+					if fromTree {
+						continue
+					}
+					n++
+					c.R.Fn(c.fname(f))
+					key := fmt.Sprintf("tree replaced in %s", c.fname(f))
+					bad := ""
+					for i := 0; i < wt.NumFields(); i++ {
+						if i == fa.Field || !isNodePtr(wt.Field(i).Type()) {
+							continue
+						}
+						reset := false
+						for _, ob := range f.Blocks {
+							for _, oin := range ob.Instrs {
+								if ost, ok := oin.(*ssa.Store); ok {
+									if ofa, ok := ost.Addr.(*ssa.FieldAddr); ok && ofa.Field == i && types.Identical(derefT(ofa.X.Type()), derefT(fa.X.Type())) && (ob.Dominates(b) || b.Dominates(ob)) {
+										reset = true
+									}
+								}
+							}
+						}
+						if !reset {
+							bad = "the field " + wt.Field(i).Name() + " keeps pointing into the tree that is being discarded"
+						}
+					}
+					ru.Check(bad == "", key, c.whereI(st), "no other pointer into the tree survives", bad)
+				}
+			}
+		}
+	}
+	ru.Anchor(n > 0, "a function that installs a new root in a trie wrapper")
 }
 
 // ruleValueRemovalKeepsChildren implements C19-R5.
